@@ -674,7 +674,9 @@ func c01Facets(c *Ctx) {
 	if f := c.fn(rule, "control", "RoutingMatcherBuilder.addDomain"); f != nil {
 		// RuleIndex: len(b.rules) evaluated before appendRule
 		g := f.Graph()
-		idx := func(n ast.Node) bool { return strings.Contains(core.ExprStr2(n), "RuleIndex: len(b.rules)") || strings.Contains(core.ExprStr2(n), "RuleIndex") }
+		idx := func(n ast.Node) bool {
+			return strings.Contains(core.ExprStr2(n), "RuleIndex: len(b.rules)") || strings.Contains(core.ExprStr2(n), "RuleIndex")
+		}
 		app := nodeCalls(f.Info(), "control.RoutingMatcherBuilder.appendRule")
 		hasIdx := false
 		ast.Inspect(f.Body, func(m ast.Node) bool {
